@@ -114,6 +114,24 @@ var c03Alphabet = func() []buildOp {
 			}
 		}},
 	)
+	// the message is replaced by a clone of itself that was made from inside a ForEach callback on the type of its
+	// last attribute (the source's attribute list is narrowed there): a clone is a decode of the source's bytes
+	ops = append(ops, buildOp{Name: "m = clone of m made inside a ForEach callback (type of the last attribute)", Do: func(m *stun.Message) {
+		if len(m.Attributes) == 0 {
+			return
+		}
+		c := new(stun.Message)
+		done := false
+		_ = m.ForEach(m.Attributes[len(m.Attributes)-1].Type, func(mm *stun.Message) error {
+			if !done {
+				done = mm.CloneTo(c) == nil
+			}
+			return nil
+		})
+		if done {
+			*m = *c
+		}
+	}})
 	for i := range ops {
 		switch n := ops[i].Name; {
 		case len(n) >= 8 && n[:8] == "Username", n == "XORMappedAddress(v4)", n == "XORMappedAddress(v6)", n == "MappedAddress(v4)", n == "ErrorCode(400)",
